@@ -180,6 +180,15 @@ func runUnfold(c *Case, tr *Trace) {
 
 func init() { extraKinds["keycache"] = runKeyCache }
 
+// keyFor: key number k of the cache model for a format. The binary formats carry any bytes as a member name:
+// there the second of the two equal-length keys is the single byte 0xE9 (no UTF-8, not ASCII).
+func keyFor(fmt string, k int) string {
+	if k == 3 && fmt != "json" {
+		return "\xe9"
+	}
+	return cacheKeys[k-1]
+}
+
 var cacheKeys = []string{"", "a", "b", "ab", "abc", "kéy"} // ids 1..: the empty key, two keys of equal length, keys sharing a prefix
 
 // runKeyCache unfolds a sequence of documents (objects whose keys follow the
@@ -209,7 +218,7 @@ func runKeyCache(c *Case, tr *Trace) {
 		enc := api.newVisitor(sk, Opts{})
 		enc.OnObjectStart(len(keys), structform.AnyType)
 		for i, k := range keys {
-			enc.OnKey(cacheKeys[k-1])
+			enc.OnKey(keyFor(c.Fmt, k))
 			if target == "struct" {
 				enc.OnObjectStart(1, structform.AnyType)
 				enc.OnKey("x")
@@ -296,8 +305,8 @@ func runKeyCache(c *Case, tr *Trace) {
 		lruInts = append(lruInts, row)
 	}
 	keyTab := [][]int{}
-	for _, k := range cacheKeys {
-		keyTab = append(keyTab, strToInts(k))
+	for k := range cacheKeys {
+		keyTab = append(keyTab, strToInts(keyFor(c.Fmt, k+1)))
 	}
 	tr.Extra = map[string]interface{}{"with": with, "without": without, "errw": errW, "errn": errN, "lru": lruInts, "keytab": keyTab}
 }
@@ -472,13 +481,15 @@ func runAlias(c *Case, tr *Trace) {
 			return &map[string][]string{}
 		case "mapstruct":
 			return &map[string]struct{ V string }{}
+		case "ukeys":
+			return &UKeys{} // user-defined state that keeps the member names it is handed
 		}
 		var x interface{}
 		return &x
 	}
 	res := map[string]interface{}{"err": "", "err2": "", "kept_ok": true, "nkept": 0}
 	tr.Extra = res
-	un, err := gotype.NewUnfolder(nil)
+	un, err := gotype.NewUnfolder(nil, userUnfolders)
 	if err != nil {
 		res["err"] = err.Error()
 		return
@@ -574,6 +585,7 @@ type concT struct {
 	C  []string           `struct:"c"`
 	D  map[string]int     `struct:"d"`
 	E  *concInner         `struct:"e"`
+	H  [][]int            `struct:"h"`
 	F  interface{}        `struct:"f"`
 	In concInner          `struct:",inline"`
 	G  map[string]concIn2 `struct:"g"`
@@ -583,6 +595,9 @@ type concInner struct {
 	Y float64 `struct:"y"`
 }
 type concIn2 struct{ Z []int }
+type concSmall struct {
+	A string `struct:"a"`
+}
 
 // concFolder implements Folder (emits an object) and is used inline and as a plain field.
 type concFolder struct{ N int }
@@ -621,7 +636,7 @@ func runConc(c *Case, tr *Trace) {
 	n := int(c.Sub["n"].(float64))
 	rounds := int(c.Sub["rounds"].(float64))
 	shared := []interface{}{
-		concT{A: "a", B: 1, C: []string{"x", "y"}, D: map[string]int{"k": 1}, E: &concInner{1, 2.5}, F: []interface{}{1, "s"}, In: concInner{3, 4}, G: map[string]concIn2{"g": {[]int{1, 2}}}},
+		concT{A: "a", B: 1, H: [][]int{{1, 2}, {3}, {}}, C: []string{"x", "y"}, D: map[string]int{"k": 1}, E: &concInner{1, 2.5}, F: []interface{}{1, "s"}, In: concInner{3, 4}, G: map[string]concIn2{"g": {[]int{1, 2}}}},
 		map[string]interface{}{"m": []interface{}{1.5, nil, true}, "n": map[string]interface{}{"o": "p"}},
 		[]concInner{{1, 1}, {2, 2}},
 		&concT{A: "ptr"},
@@ -771,6 +786,21 @@ func runConc(c *Case, tr *Trace) {
 				gotype.Fold(map[string]interface{}{"x": "abc", "p": "de", "n": 1}, u)
 			}
 		}
+		{
+			// ... and an instance that abandons a document in the middle of a skipped nested array
+			var small concSmall
+			if u, err := gotype.NewUnfolder(&small); err == nil {
+				u.OnObjectStart(-1, structform.AnyType)
+				u.OnKey("h")
+				u.OnArrayStart(-1, structform.AnyType)
+				u.OnArrayStart(-1, structform.AnyType)
+				u.OnInt(1)
+			}
+			var again concSmall
+			if u, err := gotype.NewUnfolder(&again); err != nil || gotype.Fold(shared[0], u) != nil || again.A != "a" {
+				iso++
+			}
+		}
 		if plainFold() != f0 {
 			iso++
 		}
@@ -809,6 +839,18 @@ func runConc(c *Case, tr *Trace) {
 							mismatches++
 						}
 						mu.Unlock()
+					}
+				}
+				{
+					// a target that knows one member only: everything else (nested arrays, objects) is skipped
+					var small concSmall
+					if u, err := gotype.NewUnfolder(&small); err == nil {
+						err = gotype.Fold(shared[0], u)
+						if err != nil || small.A != "a" {
+							mu.Lock()
+							mismatches++
+							mu.Unlock()
+						}
 					}
 				}
 				if len(cstreams) > 0 {
